@@ -9,6 +9,7 @@ D2 (C03)  SOAP/QR with parameter dtype != preconditioner dtype fails every refre
 D3 (C09)  checkpoint of a block without Kronecker factors cannot be loaded
 D4 (C11)  1x1 slightly-negative input -> NaN inverse root
 D5 (C13)  failure counter is lost when the gradient mask changes
+D6 (C16)  module state with a tensor-free sequence element cannot be restored from a flattened checkpoint
 """
 import io
 import logging
@@ -130,7 +131,24 @@ def d5():
         spl.matrix_inverse_root = real
 
 
-ALL = {"D1": d1, "D2": d2, "D3": d3, "D4": d4, "D5": d5}
+def d6():
+    from distributed_shampoo.utils.shampoo_checkpoint_utils import extract_state_dict_content, flatten, unflatten, update_param_state_dict_object
+    from optimizer_modules import OptimizerModule
+
+    def mk(v):
+        m = OptimizerModule()
+        m.seq = [(), torch.full((2,), v)]
+        return m
+    src, dst = mk(3.0), mk(0.0)
+    saved = flatten(extract_state_dict_content({"blk": {"mod": src}}))
+    try:
+        update_param_state_dict_object({"blk": {"mod": dst}}, unflatten(saved))
+    except KeyError as e:
+        return f"restoring a module holding [(), tensor] from its flattened state raised KeyError({e})"
+    return None if torch.equal(dst.seq[1], src.seq[1]) else "value not restored"
+
+
+ALL = {"D6": d6, "D1": d1, "D2": d2, "D3": d3, "D4": d4, "D5": d5}
 
 if __name__ == "__main__":
     import distributed_shampoo
